@@ -1,1 +1,334 @@
-//! placeholder (synthetic meshes + brute force distances) - filled in with C10
+//! Synthetic meshes and a brute-force (no BVH, no parry) triangle/triangle distance oracle in f64.
+
+use crate::refmodel::*;
+use parry3d::math::Point;
+use parry3d::shape::TriMesh;
+
+#[derive(Clone, Debug)]
+pub struct RMesh {
+    /// vertices, exactly representable in f32 (they are what the library's TriMesh holds)
+    pub verts: Vec<V3>,
+    pub tris: Vec<[u32; 3]>,
+    /// for synthetic boxes: half extents and centre (local frame), used for containment tests
+    pub box_half: Option<V3>,
+    pub box_centre: V3,
+    /// shortest triangle edge of the mesh
+    pub min_leg: f64,
+}
+
+fn min_leg_of(verts: &[V3], tris: &[[u32; 3]]) -> f64 {
+    let mut m = f64::INFINITY;
+    for t in tris {
+        for k in 0..3 {
+            let a = verts[t[k] as usize];
+            let b = verts[t[(k + 1) % 3] as usize];
+            m = m.min(norm(sub(a, b)));
+        }
+    }
+    m
+}
+
+fn f32r(x: f64) -> f64 {
+    (x as f32) as f64
+}
+
+impl RMesh {
+    /// Axis-aligned box in the local frame with every face subdivided n x n (n >= 1).
+    /// Vertex count 6*(n+1)^2 (face vertices are not shared), 12*n^2 triangles. n = 0: shared 8-vertex box.
+    pub fn boxm(half: V3, centre: V3, n: usize) -> RMesh {
+        let mut verts: Vec<V3> = vec![];
+        let mut tris: Vec<[u32; 3]> = vec![];
+        if n == 0 {
+            for k in 0..8 {
+                let s = [if k & 1 == 0 { -1.0 } else { 1.0 }, if k & 2 == 0 { -1.0 } else { 1.0 }, if k & 4 == 0 { -1.0 } else { 1.0 }];
+                verts.push([f32r(centre[0] + s[0] * half[0]), f32r(centre[1] + s[1] * half[1]), f32r(centre[2] + s[2] * half[2])]);
+            }
+            tris = vec![[0, 1, 2], [2, 1, 3], [4, 5, 6], [6, 5, 7], [2, 3, 6], [6, 3, 7], [0, 1, 4], [4, 1, 5], [0, 2, 4], [4, 2, 6], [1, 3, 5], [5, 3, 7]];
+        } else {
+            for axis in 0..3 {
+                for side in [-1.0, 1.0] {
+                    let (u, v) = ((axis + 1) % 3, (axis + 2) % 3);
+                    let base = verts.len() as u32;
+                    for i in 0..=n {
+                        for j in 0..=n {
+                            let mut p = [0.0; 3];
+                            p[axis] = centre[axis] + side * half[axis];
+                            p[u] = centre[u] - half[u] + 2.0 * half[u] * i as f64 / n as f64;
+                            p[v] = centre[v] - half[v] + 2.0 * half[v] * j as f64 / n as f64;
+                            verts.push([f32r(p[0]), f32r(p[1]), f32r(p[2])]);
+                        }
+                    }
+                    let w = (n + 1) as u32;
+                    for i in 0..n as u32 {
+                        for j in 0..n as u32 {
+                            let a = base + i * w + j;
+                            tris.push([a, a + 1, a + w]);
+                            tris.push([a + w, a + 1, a + w + 1]);
+                        }
+                    }
+                }
+            }
+        }
+        let min_leg = min_leg_of(&verts, &tris);
+        RMesh { verts, tris, box_half: Some(half), box_centre: centre, min_leg }
+    }
+
+    pub fn from_trimesh(m: &TriMesh) -> RMesh {
+        let verts: Vec<V3> = m.vertices().iter().map(|p| [p.x as f64, p.y as f64, p.z as f64]).collect();
+        let tris: Vec<[u32; 3]> = m.indices().iter().map(|t| [t[0], t[1], t[2]]).collect();
+        let min_leg = min_leg_of(&verts, &tris);
+        RMesh { verts, tris, box_half: None, box_centre: [0.0; 3], min_leg }
+    }
+
+    pub fn to_trimesh(&self) -> TriMesh {
+        TriMesh::new(self.verts.iter().map(|v| Point::new(v[0] as f32, v[1] as f32, v[2] as f32)).collect(), self.tris.clone()).expect("trimesh")
+    }
+
+    pub fn placed(&self, f: &Fr) -> Placed {
+        let w: Vec<V3> = self.verts.iter().map(|v| f.apply(*v)).collect();
+        let mut tris = Vec::with_capacity(self.tris.len());
+        for t in &self.tris {
+            let (a, b, c) = (w[t[0] as usize], w[t[1] as usize], w[t[2] as usize]);
+            let lo = [a[0].min(b[0]).min(c[0]), a[1].min(b[1]).min(c[1]), a[2].min(b[2]).min(c[2])];
+            let hi = [a[0].max(b[0]).max(c[0]), a[1].max(b[1]).max(c[1]), a[2].max(b[2]).max(c[2])];
+            tris.push(PTri { a, b, c, lo, hi });
+        }
+        tris.sort_by(|x, y| x.lo[0].partial_cmp(&y.lo[0]).unwrap());
+        Placed { tris, frame: *f, box_half: self.box_half, box_centre: self.box_centre }
+    }
+}
+
+#[derive(Clone, Debug)]
+pub struct PTri {
+    pub a: V3,
+    pub b: V3,
+    pub c: V3,
+    pub lo: V3,
+    pub hi: V3,
+}
+
+pub struct Placed {
+    pub tris: Vec<PTri>,
+    pub frame: Fr,
+    pub box_half: Option<V3>,
+    pub box_centre: V3,
+}
+
+impl Placed {
+    /// world point strictly inside the (synthetic) box by margin m
+    pub fn contains_point(&self, p: V3, m: f64) -> Option<bool> {
+        let h = self.box_half?;
+        let l = self.frame.inv().apply(p);
+        Some((0..3).all(|k| (l[k] - self.box_centre[k]).abs() < h[k] - m))
+    }
+}
+
+fn clamp01(x: f64) -> f64 {
+    x.max(0.0).min(1.0)
+}
+
+/// squared distance between segments p1q1 and p2q2 (Ericson, Real-Time Collision Detection 5.1.9)
+pub fn seg_seg_d2(p1: V3, q1: V3, p2: V3, q2: V3) -> f64 {
+    let d1 = sub(q1, p1);
+    let d2 = sub(q2, p2);
+    let r = sub(p1, p2);
+    let a = dot(d1, d1);
+    let e = dot(d2, d2);
+    let f = dot(d2, r);
+    let (s, t);
+    let eps = 1e-300;
+    if a <= eps && e <= eps {
+        return dot(r, r);
+    }
+    if a <= eps {
+        s = 0.0;
+        t = clamp01(f / e);
+    } else {
+        let c = dot(d1, r);
+        if e <= eps {
+            t = 0.0;
+            s = clamp01(-c / a);
+        } else {
+            let b = dot(d1, d2);
+            let denom = a * e - b * b;
+            let mut ss = if denom > 1e-30 * a * e { clamp01((b * f - c * e) / denom) } else { 0.0 };
+            let mut tt = (b * ss + f) / e;
+            if tt < 0.0 {
+                tt = 0.0;
+                ss = clamp01(-c / a);
+            } else if tt > 1.0 {
+                tt = 1.0;
+                ss = clamp01((b - c) / a);
+            }
+            s = ss;
+            t = tt;
+        }
+    }
+    let c1 = add(p1, scale(d1, s));
+    let c2 = add(p2, scale(d2, t));
+    let d = sub(c1, c2);
+    dot(d, d)
+}
+
+/// squared distance point - triangle (Ericson 5.1.5)
+pub fn pt_tri_d2(p: V3, a: V3, b: V3, c: V3) -> f64 {
+    let ab = sub(b, a);
+    let ac = sub(c, a);
+    let ap = sub(p, a);
+    let d1 = dot(ab, ap);
+    let d2 = dot(ac, ap);
+    let cl = |q: V3| {
+        let d = sub(p, q);
+        dot(d, d)
+    };
+    if d1 <= 0.0 && d2 <= 0.0 {
+        return cl(a);
+    }
+    let bp = sub(p, b);
+    let d3 = dot(ab, bp);
+    let d4 = dot(ac, bp);
+    if d3 >= 0.0 && d4 <= d3 {
+        return cl(b);
+    }
+    let vc = d1 * d4 - d3 * d2;
+    if vc <= 0.0 && d1 >= 0.0 && d3 <= 0.0 {
+        let v = d1 / (d1 - d3);
+        return cl(add(a, scale(ab, v)));
+    }
+    let cp = sub(p, c);
+    let d5 = dot(ab, cp);
+    let d6 = dot(ac, cp);
+    if d6 >= 0.0 && d5 <= d6 {
+        return cl(c);
+    }
+    let vb = d5 * d2 - d1 * d6;
+    if vb <= 0.0 && d2 >= 0.0 && d6 <= 0.0 {
+        let w = d2 / (d2 - d6);
+        return cl(add(a, scale(ac, w)));
+    }
+    let va = d3 * d6 - d5 * d4;
+    if va <= 0.0 && (d4 - d3) >= 0.0 && (d5 - d6) >= 0.0 {
+        let w = (d4 - d3) / ((d4 - d3) + (d5 - d6));
+        return cl(add(b, scale(sub(c, b), w)));
+    }
+    let denom = 1.0 / (va + vb + vc);
+    let v = vb * denom;
+    let w = vc * denom;
+    cl(add(a, add(scale(ab, v), scale(ac, w))))
+}
+
+/// Segment pq crossing triangle abc: returns the "piercing strength": min(|dist of p to plane|,
+/// |dist of q to plane|, distance of the crossing point to the triangle border), or None.
+pub fn seg_tri_pierce(p: V3, q: V3, a: V3, b: V3, c: V3) -> Option<f64> {
+    let n = cross(sub(b, a), sub(c, a));
+    let nn = norm(n);
+    if nn < 1e-300 {
+        return None;
+    }
+    let n = scale(n, 1.0 / nn);
+    let dp = dot(sub(p, a), n);
+    let dq = dot(sub(q, a), n);
+    if dp * dq > 0.0 || (dp == 0.0 && dq == 0.0) {
+        return None;
+    }
+    let t = dp / (dp - dq);
+    let x = add(p, scale(sub(q, p), t));
+    // inside test with distance to the three edges (in-plane)
+    let mut border = f64::INFINITY;
+    let vs = [a, b, c];
+    for k in 0..3 {
+        let e0 = vs[k];
+        let e1 = vs[(k + 1) % 3];
+        let edge = sub(e1, e0);
+        let inward = cross(n, edge);
+        let l = norm(inward);
+        if l < 1e-300 {
+            return None;
+        }
+        let d = dot(sub(x, e0), inward) / l;
+        if d < 0.0 {
+            return None;
+        }
+        border = border.min(d);
+    }
+    Some(dp.abs().min(dq.abs()).min(border))
+}
+
+pub struct PairResult {
+    /// minimum surface distance (0 when triangles intersect)
+    pub dist: f64,
+    /// strongest piercing found (0 when no triangle pair intersects)
+    pub pierce: f64,
+    pub intersects: bool,
+}
+
+fn aabb_d2(a: &PTri, b: &PTri) -> f64 {
+    let mut s = 0.0;
+    for k in 0..3 {
+        let d = (a.lo[k] - b.hi[k]).max(b.lo[k] - a.hi[k]).max(0.0);
+        s += d * d;
+    }
+    s
+}
+
+pub fn tri_tri(a: &PTri, b: &PTri) -> (f64, f64) {
+    // (squared distance, pierce strength)
+    let ea = [(a.a, a.b), (a.b, a.c), (a.c, a.a)];
+    let eb = [(b.a, b.b), (b.b, b.c), (b.c, b.a)];
+    let mut pierce: f64 = -1.0;
+    for (p, q) in ea {
+        if let Some(s) = seg_tri_pierce(p, q, b.a, b.b, b.c) {
+            pierce = pierce.max(s);
+        }
+    }
+    for (p, q) in eb {
+        if let Some(s) = seg_tri_pierce(p, q, a.a, a.b, a.c) {
+            pierce = pierce.max(s);
+        }
+    }
+    if pierce >= 0.0 {
+        return (0.0, pierce);
+    }
+    let mut d2 = f64::INFINITY;
+    for (p, q) in ea {
+        for (r, s) in eb {
+            d2 = d2.min(seg_seg_d2(p, q, r, s));
+        }
+    }
+    for p in [a.a, a.b, a.c] {
+        d2 = d2.min(pt_tri_d2(p, b.a, b.b, b.c));
+    }
+    for p in [b.a, b.b, b.c] {
+        d2 = d2.min(pt_tri_d2(p, a.a, a.b, a.c));
+    }
+    (d2, 0.0)
+}
+
+/// Brute force minimum distance between two placed meshes; triangles sorted by lo.x, sweep with
+/// the running best as cut-off. `cutoff`: distances above it need not be resolved exactly.
+pub fn mesh_mesh(a: &Placed, b: &Placed, cutoff: f64) -> PairResult {
+    let mut best2 = f64::INFINITY;
+    let mut pierce: f64 = 0.0;
+    let mut intersects = false;
+    let cut2 = cutoff * cutoff;
+    for ta in &a.tris {
+        for tb in &b.tris {
+            let lim = best2.min(cut2 * 4.0 + 1.0).sqrt();
+            if tb.lo[0] > ta.hi[0] + lim {
+                break; // sorted by lo.x: all following are farther in x
+            }
+            if aabb_d2(ta, tb) > best2 {
+                continue;
+            }
+            let (d2, p) = tri_tri(ta, tb);
+            if d2 == 0.0 {
+                intersects = true;
+                pierce = pierce.max(p);
+                best2 = 0.0;
+            } else if d2 < best2 {
+                best2 = d2;
+            }
+        }
+    }
+    PairResult { dist: best2.sqrt(), pierce, intersects }
+}
